@@ -1,0 +1,45 @@
+//go:build verif
+
+// Package verifhook provides named hook points used by the external
+// verification harness (build tag `verif`).
+package verifhook
+
+import "sync/atomic"
+
+var (
+	pointHandler  atomic.Pointer[func(string)]
+	pausedHandler atomic.Pointer[func(string) bool]
+)
+
+// SetPointHandler installs (or, with nil, removes) the handler invoked by Point.
+func SetPointHandler(f func(name string)) {
+	if f == nil {
+		pointHandler.Store(nil)
+		return
+	}
+	pointHandler.Store(&f)
+}
+
+// SetPausedHandler installs (or, with nil, removes) the predicate behind Paused.
+func SetPausedHandler(f func(name string) bool) {
+	if f == nil {
+		pausedHandler.Store(nil)
+		return
+	}
+	pausedHandler.Store(&f)
+}
+
+// Point marks a named step (crash point, scheduling point or gate).
+func Point(name string) {
+	if h := pointHandler.Load(); h != nil {
+		(*h)(name)
+	}
+}
+
+// Paused reports whether the named background activity is held by the harness.
+func Paused(name string) bool {
+	if h := pausedHandler.Load(); h != nil {
+		return (*h)(name)
+	}
+	return false
+}
